@@ -50,6 +50,11 @@ Inductive optdefault := DBool (b : bool) | DInt (z : Z) | DStr (s : string) | DN
 Record exit_entry := mkExit { x_exc : string; x_text : option string; x_uses_cc : bool;
                               x_code : option Z; x_bad : option string }.
 
+(* where main opens / closes the connection relative to the try around cmd(ipmi, args) *)
+Inductive run_shape_t :=
+| RunShape (open_in_try : bool) (close_in_finally : bool)
+| RunUntranslated (why : string).
+
 Inductive power_entry := PCode (method : string) (code : N) | PUntranslated (why : string).
 Inductive chassis_control_shape :=
 | CCReq (netfn cmd lun bit_off bit_width : N)
@@ -604,6 +609,65 @@ Definition command_error_end (tbl : list exit_entry) (e : err) : cmd_end :=
               end
           end
       end
+  end.
+
+(* ---- the stages main goes through once the connection is configured (main 647-666,
+   Ipmi.open / Ipmi.close, Session.establish / Session.close):
+     [ipmi.open()]  try: [ipmi.open()] cmd(ipmi, args)  except ...  finally: ipmi.close()
+   as calls on the interface object: open, establish_session, <the command>, close_session, close.
+   At most one of them raises (the fault); the others succeed. ---- *)
+Inductive istep := IOpen | IEstablish | ICommand | ICloseSession | IClose.
+Definition istep_eqb (a b : istep) : bool :=
+  match a, b with
+  | IOpen, IOpen | IEstablish, IEstablish | ICommand, ICommand | ICloseSession, ICloseSession | IClose, IClose => true
+  | _, _ => false
+  end.
+
+Inductive run_end :=
+| RunReturns                                   (* main returns: exit status 0 *)
+| RunExit (printed : option string) (code : Z) (* handled: message, sys.exit(code) *)
+| RunRaises (e : err)                          (* the exception leaves main *)
+| RunUnmodelled.
+
+(* run the steps in order until the faulty one; returns the calls made and the error, if any *)
+Fixpoint do_steps (steps : list istep) (fault : option (istep * err)) : list istep * option err :=
+  match steps with
+  | [] => ([], None)
+  | s :: t =>
+      match fault with
+      | Some (fs, e) => if istep_eqb fs s then ([s], Some e)
+                        else let '(c, r) := do_steps t fault in (s :: c, r)
+      | None => let '(c, r) := do_steps t fault in (s :: c, r)
+      end
+  end.
+
+Definition main_run (shape : run_shape_t) (tbl : list exit_entry) (fault : option (istep * err))
+  : list istep * run_end :=
+  match shape with
+  | RunShape open_in_try true =>
+      let opening := [IOpen; IEstablish] in
+      (* before the try *)
+      let '(c0, r0) := if open_in_try then ([], None) else do_steps opening fault in
+      match r0 with
+      | Some e => (c0, RunRaises e)                          (* nothing catches it, no finally yet *)
+      | None =>
+          (* try body *)
+          let '(c1, r1) := do_steps ((if open_in_try then opening else []) ++ [ICommand]) fault in
+          let pending := match r1 with
+                         | None => RunReturns
+                         | Some e => match command_error_end tbl e with
+                                     | EndStatus p code => RunExit p code
+                                     | EndPropagates => RunRaises e
+                                     | EndUnmodelled => RunUnmodelled
+                                     end
+                         end in
+          (* finally: ipmi.close() = session.close() -> interface.close_session(); interface.close();
+             an exception raised there replaces whatever was pending *)
+          let '(c2, r2) := do_steps [ICloseSession; IClose] (match r1 with None => fault | Some _ => None end) in
+          (c0 ++ c1 ++ c2, match r2 with Some e => RunRaises e | None => pending end)
+      end
+  | RunShape _ false => ([], RunUnmodelled)
+  | RunUntranslated _ => ([], RunUnmodelled)
   end.
 
 (* ---- chassis power: the request a sub-command sends ---- *)
